@@ -184,6 +184,12 @@ int main(void) {
 #if NT == 3
   THR(c_start)(&E, IDC);
 #endif
+#ifdef SCHED_RETRY
+  /* targeted schedule shape for the CAS-retry scenario (NT == 3): a* b* c* c* | A B C C  (free slices, then forced ones). Thread c is
+     the one that can be preempted between create_array and its CAS on my_root; a and b need one preemption each. */
+  VP_RUNT(THR(a), IDA) VP_RUNT(THR(b), IDB) VP_RUNT(THR(c), IDC) VP_RUNT(THR(c), IDC)
+  vp_cur = IDA; VP_RUNMAX(THR(a)) vp_cur = IDB; VP_RUNMAX(THR(b)) vp_cur = IDC; VP_RUNMAX(THR(c)) VP_RUNMAX(THR(c))
+#else
   for (int r = 0; r < ROUNDS; r++) {
     VP_RUNT(THR(a), IDA) VP_RUNT(THR(b), IDB)
 #if NT == 3
@@ -197,6 +203,7 @@ int main(void) {
     vp_cur = IDC; VP_RUNMAX(THR(c))
 #endif
   }
+#endif
   int unfinished = !THR(a_fin) || !THR(b_fin);
 #if NT == 3
   unfinished |= !THR(c_fin);
